@@ -196,9 +196,21 @@ func runC11(c *Case) {
 			}
 		}
 		x := r.Intn(100)
+		faulted := false
+		if x < 50 && r.Intn(8) == 0 {
+			// the copy of the parent version to root/merged fails once: the commit protocol
+			// tolerates that (the parent simply stays listed); no version may get lost by it
+			w.st.Client(hw.client).AddFault(fs3.Fault{Op: fs3.OpPut, KeyContain: "/root/merged/", Action: "error"})
+			faulted = true
+			c.Count("retirement_faults_injected", 1)
+		}
 		switch {
 		case x < 50:
 			s, err := w.exec(genVStmt(r, wi, i, nkeys, 10+times[i]))
+			if faulted {
+				w.st.Client(hw.client).ClearFaults()
+				w.logf("   (one PUT under root/merged/ failed during that statement)")
+			}
 			if err != nil {
 				fail("statement-error", err.Error())
 				return
